@@ -76,7 +76,10 @@ Positions == {"step", "stream_item", "field", "alias", "vector_item", "optional"
               \* reached only through a type argument of a generic (see Evolution.tla): the closure must follow type arguments of every
               \* instantiation, not only of the first one it meets
               "generic_arg", "second_instantiation", "third_instantiation", "nested_generic_arg", "generic_alias_arg",
-              "second_instantiation_alias", "second_instantiation_in_record", "union_case_record", "map_value_record"}
+              "second_instantiation_alias", "second_instantiation_in_record", "union_case_record", "map_value_record",
+              \* the edited type sits behind an alias that the protocol's closure reaches through exactly one kind of reference
+              "map_key_alias", "map_value_alias", "array_item_alias", "fixed_vector_item_alias", "union_case_alias", "generic_arg_alias",
+              "optional_alias", "stream_item_alias"}
 
 ASSUME \A i \in 1..Len(TypeEdits) : PrintT(<<"CASE", ToJson([kind |-> "type", edit |-> TypeEdits[i].e, a |-> TypeEdits[i].a, b |-> TypeEdits[i].b,
                                                               class |-> TypeClass(TypeEdits[i]), positions |-> Positions])>>)
